@@ -257,7 +257,14 @@ func (fv *FnVC) finishReturn(in *inst, r retInfo, suffix string) {
 		}
 	}
 	// frame: every location allocated before entry and outside assigns is unchanged
-	if !fv.frameAny || len(fv.frame) > 0 {
+	frameClaim := ct.AssignsSet || !ct.Synth // a hand-written contract without an assigns clause means "assigns nothing"
+	for _, im := range fv.eng.refinedBy(f) {
+		if im.ct.AssignsSet {
+			frameClaim = true
+		}
+	}
+	// a contract without an assigns clause (synthesised for a store-site inventory) claims no frame
+	if frameClaim && (!fv.frameAny || len(fv.frame) > 0) {
 		frameProps := append([]string(nil), in.propsFor(nil)...)
 		for _, im := range fv.eng.refinedBy(f) {
 			if im.ct.AssignsSet && !im.ct.AssignsAny && len(im.ct.Assigns) == 0 {
